@@ -14,7 +14,9 @@ LOC = {"TRUNK": "T", "NORTH": "N", "SOUTH": "S", "EAST": "E", "WEST": "W", "NO_P
 def mk_rect(cx, cy, w, h, region="_", fixed=False, hard=False) -> Rectangle:
     kw: dict[str, Any] = dict(center=Point(cx, cy), shape=Shape(w, h), fixed=fixed, hard=hard)
     if region != "_":
-        kw["region"] = region
+        # a FRESH str object per rectangle (as a YAML reader hands them out): equal region names must be compared by
+        # value, never by identity (seeded C18-e2)
+        kw["region"] = "".join(list(region))
     return Rectangle(**kw)
 
 
